@@ -66,7 +66,7 @@ def jobs_for(prop, tier, seed):
     elif prop == "C19":
         for n in setgen.CONFIGS:
             cfg = SCfg(n)
-            out.append((n, "sweep", setgen.lookup_sweep(cfg, 300 if th else 48), 200))
+            out.append((n, "sweep", setgen.lookup_sweep(cfg, 80 if th else 48, extra_sizes=(128, 200, 300) if th else (128,)), 200))
             out.append((n, "hints", setgen.hint_enumeration(cfg, 5), None))
     return out
 
